@@ -35,10 +35,25 @@ type verifVP9Frame struct {
 
 // verifVP9Header renders a well-formed VP9 uncompressed header (VP9 bitstream
 // specification section 6.2) followed by arbitrary frame bytes.
-func verifVP9Header() verifVP9Frame {
+// verifVP9Shape records the structural choices of a rendered header so that a
+// second frame of the same shape (other field values) needs no new case split
+type verifVP9Shape struct {
+	set      bool
+	profile  int
+	key      bool
+	srgb     bool
+	restSize int
+}
+
+func verifVP9Header() verifVP9Frame { return verifVP9HeaderOf(&verifVP9Shape{}) }
+
+func verifVP9HeaderOf(sh *verifVP9Shape) verifVP9Frame {
 	var w verifBits
-	profile := verifCase("profile", 0, 3)
-	key := verifCase("keyframe", 0, 1) == 1
+	if !sh.set {
+		sh.profile = verifCase("profile", 0, 3)
+		sh.key = verifCase("keyframe", 0, 1) == 1
+	}
+	profile, key := sh.profile, sh.key
 	w.put(2, 2) // frame_marker
 	w.put(uint32(profile&1), 1)
 	w.put(uint32(profile>>1), 1)
@@ -61,7 +76,10 @@ func verifVP9Header() verifVP9Frame {
 		if profile >= 2 {
 			w.put(uint32(verifU8("ten_or_twelve_bit")), 1)
 		}
-		srgb := verifCase("srgb", 0, 1) == 1
+		if !sh.set {
+			sh.srgb = verifCase("srgb", 0, 1) == 1
+		}
+		srgb := sh.srgb
 		if srgb {
 			w.put(7, 3)
 			if profile == 1 || profile == 3 {
@@ -86,7 +104,11 @@ func verifVP9Header() verifVP9Frame {
 		w.put(uint32(hm1), 16)
 		f.width, f.height = wm1+1, hm1+1
 	}
-	f.data = append(w.bytes(), verifBytes("rest", verifCase("rest", 0, verifBound("C12.rest")))...)
+	if !sh.set {
+		sh.restSize = verifCase("rest", 0, verifBound("C12.rest"))
+	}
+	f.data = append(w.bytes(), verifBytes("rest", sh.restSize)...)
+	sh.set = true
 	return f
 }
 
@@ -134,13 +156,21 @@ func VerifC12Payloader() {
 	p := &VP9Payloader{FlexibleMode: flex, InitialPictureIDFn: func() uint16 { return rawID }}
 	mtu := verifU16("mtu")
 	verifAssume(mtu >= 12) // room for the 11-byte descriptor of a key frame's first packet plus one byte
-	fr := verifVP9Header()
+	var shape verifVP9Shape
+	fr := verifVP9HeaderOf(&shape)
 	verifC12Frame("C12.f1", p, mtu, id, fr)
 	next := (id + 1) & 0x7FFF
 	verifAssert("C12.id-advance", p.pictureID == next)
 	// second frame: a short inter frame (profile 0: marker 10, profile 00, show_existing 0, non-key)
 	fr2 := verifVP9Frame{data: []byte{0x84 | verifU8("f2.flags")&3, verifU8("f2.b1")}}
 	verifC12Frame("C12.f2", p, mtu, next, fr2)
+	if fr.key {
+		// third frame: another key frame of the same shape with its own field values (a
+		// resolution change): nothing derived from the first key frame may be reused
+		fr3 := verifVP9HeaderOf(&shape)
+		verifC12Frame("C12.f3", p, mtu, (next+1)&0x7FFF, fr3)
+		verifCover("C12.second-keyframe")
+	}
 	if next == 0 {
 		verifCover("C12.id-wrap")
 	}
@@ -211,7 +241,7 @@ func VerifC12Descriptor() {
 	var pgU []uint8
 	var pgR [][]uint8
 	if v {
-		ns = verifCase("N_S", 0, verifBound("C12.maxns"))
+		ns = verifPick("N_S", []int{0, 1, 5, 7, 2, 3, 4, 6}[:verifBound("C12.nskinds")])
 		y, g = verifCase("Y", 0, 1) == 1, verifCase("G", 0, 1) == 1
 		sb := uint8(ns)<<5 | verifU8("ss.res")&7
 		if y {
